@@ -59,6 +59,16 @@ func probeHandle(raw []byte) map[string]interface{} {
 			fns[codeKey(f)] = &fnInfo{cidx: i, nl: f.NumLocals, h: hs[i]}
 		}
 	}
+	byCode := map[string]*fnInfo{}
+	for _, f := range fns {
+		_ = f
+	}
+	byCode[string(bc.MainFunction.Instructions)] = fns[codeKey(bc.MainFunction)]
+	for _, k := range bc.Constants {
+		if f, ok := k.(*tengo.CompiledFunction); ok {
+			byCode[string(f.Instructions)] = fns[codeKey(f)]
+		}
+	}
 	steps := 0
 	var mism []V
 	maxSP, maxFI := 0, 0
@@ -73,6 +83,13 @@ func probeHandle(raw []byte) map[string]interface{} {
 			maxFI = s.FI
 		}
 		fi := fns[codeKey(s.Fn)]
+		if fi == nil {
+			// a function object made by copy(): same code in a fresh slice - identified by its instruction bytes
+			fi = byCode[string(s.Fn.Instructions)]
+			if fi != nil {
+				fns[codeKey(s.Fn)] = fi
+			}
+		}
 		if fi == nil {
 			if len(mism) < 5 {
 				mism = append(mism, V{"why": "unknown function", "ip": s.IP})
